@@ -8,11 +8,16 @@ VARIABLE l
 T == ndJsonDeserialize(IOEnv.TRACE)
 NT == Len(T)
 Ev == T[l]
+\* MD5 of n zero bytes for three lengths around 2^29 (coreutils md5sum of head -c n /dev/zero)
+ZeroMD5(n) == CASE n = 536870911 -> <<198, 196, 131, 74, 123, 9, 40, 135, 138, 212, 140, 134, 122, 30, 36, 214>>
+                [] n = 536870912 -> <<170, 85, 155, 78, 53, 35, 166, 201, 49, 240, 143, 77, 245, 45, 88, 242>>
+                [] n = 536870975 -> <<25, 23, 1, 148, 36, 9, 138, 10, 79, 75, 139, 13, 177, 251, 88, 121>>
 Ref == CASE Ev.fn = "md5" -> M!MD5(Ev.inp)
          [] Ev.fn = "m32" -> Murmur32(Ev.inp)
          [] Ev.fn = "m128" -> Murmur128(Ev.inp)
          [] Ev.fn = "fnv32" -> Fnv32(Ev.inp)
          [] Ev.fn = "fnv64" -> Fnv64(Ev.inp)
+         [] Ev.fn = "md5zero" -> ZeroMD5(Ev.zlen)      \* MD5 of that many zero bytes (one call of 2^29 bytes or more)
          [] Ev.fn = "md5rel" -> Ev.mem         \* a large file range: equal to the in-memory digest of the same bytes
          [] OTHER -> <<-1>>
 Ok == Ev.fn \notin {"crash", "timeout"} /\ LET r == Ref IN Len(Ev.outs) > 0 /\ \A i \in 1..Len(Ev.outs) : Ev.outs[i] = r
